@@ -62,6 +62,7 @@ def configs(tier):
             add(1, 1, 2, 6, reb, True, 3, 2)
             add(3, 1, 2, 6, reb, True, 2, 1)
         add(3, 1, 3, 6, True, False, 1, 1)
+        add(3, 2, 3, 6, False, True, 1, 1)        # d = 3 together with lmin = 2
         # graded refinement towards a point: deep histories with few events per state
         for version in (6, 7, 8, 2, 3):
             for reb in (False, True):
